@@ -379,6 +379,56 @@ func runC12_6(c *core.Ctx) {
 			}
 			k++
 			why, ok := putOwners[f.Name]
+			if !ok && !ast.IsExported(f.Obj.Name()) {
+				// an unexported helper that pools (part of) its own parameter on behalf of its callers:
+				// accepted when every caller is an owner of the table
+				usesParam := false
+				sig := f.Obj.Type().(*types.Signature)
+				ast.Inspect(arg, func(n ast.Node) bool {
+					if id, isID := n.(*ast.Ident); isID {
+						for i := 0; i < sig.Params().Len(); i++ {
+							if f.Info.Uses[id] == types.Object(sig.Params().At(i)) {
+								usesParam = true
+							}
+						}
+						// `switch a := p.(type)`: the clause variable stands for the parameter
+						if o, isVar := f.Info.Uses[id].(*types.Var); isVar && o != nil && !o.IsField() {
+							ast.Inspect(f.Decl.Body, func(m ast.Node) bool {
+								if ts, isTS := m.(*ast.TypeSwitchStmt); isTS {
+									if as, isAs := ts.Assign.(*ast.AssignStmt); isAs && len(as.Rhs) == 1 {
+										if ta, isTA := ast.Unparen(as.Rhs[0]).(*ast.TypeAssertExpr); isTA {
+											for i := 0; i < sig.Params().Len(); i++ {
+												if flow.ObjOf(f.Info, ta.X) == types.Object(sig.Params().At(i)) && o.Pos() >= ts.Pos() && o.Pos() <= ts.End() {
+													usesParam = true
+												}
+											}
+										}
+									}
+								}
+								return true
+							})
+						}
+					}
+					return true
+				})
+				if usesParam {
+					var callers []string
+					allOwners := true
+					allFuncs(c, func(g *fn) {
+						for _, cc := range callsIn(g.Decl.Body, true) {
+							if flow.IsCall(g.Info, cc, f.Obj) {
+								callers = append(callers, g.Name)
+								if _, isOwner := putOwners[g.Name]; !isOwner {
+									allOwners = false
+								}
+							}
+						}
+					})
+					if len(callers) > 0 && allOwners {
+						ok, why = true, "helper that pools its argument for the owner(s) "+strings.Join(callers, ", ")
+					}
+				}
+			}
 			c.Check(ok, f.Name, pool+".Put("+exprStr(arg)+") #"+itoa(k), call.Pos(), "owner: "+why,
 				"a buffer is returned to the "+pool+" pool from a function that is not in the table of owners: memory still referenced elsewhere (or never obtained from the pool) may be recycled")
 		}
